@@ -205,6 +205,9 @@ func TestVerifC07(t *testing.T) {
 			for _, a := range res.atts {
 				w.emit(a)
 			}
+			for _, a := range res.skels {
+				w.emit(a)
+			}
 			if os.Getenv("VERIF_LOCKROWS") != "" {
 				for _, a := range res.acts {
 					w.emit(a)
